@@ -31,6 +31,8 @@ CAT = {
     'RaiseNul': (I1, 'RaiseNul', '', '', 'raise', 'Err.Nul', 1),
     # both at once: a name that is no DBus error name and a text that cannot go on the wire as it is
     'RaiseBadNameNul': (I1, 'RaiseBadNameNul', '', '', 'raise', 'Err.BadNameNul', 1),
+    # an exception that cannot even be turned into text: the caller still gets its one error reply
+    'RaiseMute': (I1, 'RaiseMute', '', '', 'raise', 'Err.Mute', 1),
     'Unenc': (I1, 'Unenc', '', 'u', 'unencodable', 'Err.Unencodable', 1),
     'Arity': (I1, 'Arity', '', 'us', 'unencodable', 'Err.Unencodable', 1),
     'Caller': (I1, 'Caller', '', 's', 'value', 'Caller', 1),
@@ -52,6 +54,11 @@ class DeferredError(Exception):
 
 class BadNameError(Exception):
     dbusErrorName = 'not a valid name'
+
+
+class MuteError(Exception):
+    def __str__(self):
+        raise RuntimeError('no text')
 
 
 def build():
@@ -124,6 +131,10 @@ def build():
         def dbus_RaiseBadNameNul(self):
             self.log('RaiseBadNameNul', (), None)
             raise BadNameError('wor\0se')
+
+        def dbus_RaiseMute(self):
+            self.log('RaiseMute', (), None)
+            raise MuteError()
 
         def dbus_RaiseNul(self):
             self.log('RaiseNul', (), None)
@@ -307,6 +318,8 @@ class ObjectsDriver:
                 return 'Err.BadNameNul'
             if n == 'org.txdbus.PythonException.Exception' and text and 'nu' in text and text.endswith('l') and '\0' not in text:
                 return 'Err.Nul'
+            if n == 'org.txdbus.PythonException.MuteError' and isinstance(text, str):
+                return 'Err.Mute'
             key = find_key(c)
             if key in ('Unenc', 'Arity') and n.startswith('org.txdbus.PythonException.'):
                 return 'Err.Unencodable'
